@@ -7,7 +7,8 @@ PROPS = {
         "runs": {
             "quick": [{"harness": "reprgp", "args": ["--scope", "S1", "--nmax", 4]}],
             "thorough": [{"harness": "reprgp", "args": ["--scope", "S1", "--nmax", 5]},
-                         {"harness": "reprgp", "args": ["--scope", "S2", "--nmax", 4]}],
+                         {"harness": "reprgp", "args": ["--scope", "S2", "--nmax", 4]},
+                         {"harness": "reprgp", "args": ["--scope", "S4"]}],
         },
         "rule": "every general-position input of the C01 scopes x 4 clip types x 4 fill rules x every listed representation change (all start-vertex rotations, every single duplicated vertex, explicit closing vertex, "
                 "path-order permutation, subject/clip swap, reversal of all paths) compared by exact canonical path-set equality; plus Xor=Union-Intersection, Difference+Intersection=subject and equivariance under 10 affine maps "
